@@ -15,7 +15,9 @@ Inductive lop : Type :=
 | OpSetWhole (w : operand Z).
 
 (* observation: outcome (scalar / array / nothing), X after the call, X read back label by label *)
-Record lobs := mkLObs { o_out : outcome (rd Z); o_after : list Z; o_bylabel : list (outcome (rd Z)) }.
+(* o_same: the container still holds the SAME array object for X (element writes are in place; only a whole-series
+   assignment of a sequence installs a new array) *)
+Record lobs := mkLObs { o_out : outcome (rd Z); o_after : list Z; o_bylabel : list (outcome (rd Z)); o_same : bool }.
 Record lcase := mkLCase {
   l_span : span; l_tbl : list (label * loc); l_in : list (label * bool);
   l_data : list Z; l_other : list Z; l_op : lop; l_obs : lobs }.
@@ -50,6 +52,8 @@ Definition mk_state (c : lcase) : cstate Z :=
 Definition unit_out (o : outcome unit) : outcome (rd Z) := match o with Ret _ => Ret (RArr []) | Raise e => Raise e end.
 Definition data_of (st : cstate Z) (name : string) : list Z :=
   match lookup name (c_vars st) with Some sr => s_data sr | None => [] end.
+Definition id_of (st : cstate Z) (name : string) : Z :=
+  match lookup name (c_vars st) with Some sr => s_id sr | None => -1 end.
 
 Definition run_lop (c : lcase) : cstate Z * outcome (rd Z) :=
   let st := mk_state c in
@@ -72,6 +76,7 @@ Definition check_lcase (c : lcase) : bool :=
   out_eqb o (o_out (l_obs c))
   && zlist_eqb (data_of st' "X") (o_after (l_obs c))
   && zlist_eqb (data_of st' "Y") (l_other c)
+  && Bool.eqb (id_of st' "X" =? 1) (o_same (l_obs c))
   && outs_eqb (map (fun l => get_item (tbl_get_loc (l_tbl c)) st' "X" (KLabel l)) (span_labels (l_span c)))
               (o_bylabel (l_obs c)).
 
